@@ -11,10 +11,10 @@
    copies and compares them.  Go maps keyed by strings are association lists ([amap]); they are only
    read by key, summed, counted or measured with len(), never ranged over in an order-dependent way. *)
 From Coq Require Import String Ascii.
-From GocqlV Require Import Lib.Base Gen.Consts.
+From GocqlV Require Import Lib.Base.   (* no package-level constant of gocql is involved in placement: Gen.Consts is not needed *)
 Open Scope Z_scope.
 
-Definition str := list Z.
+Notation str := (list Z) (only parsing).
 
 (* "literal"%string as Go bytes *)
 Fixpoint str_of (s : string) : str :=
@@ -148,13 +148,20 @@ Fixpoint is_prefix (p s : str) : bool :=
 Fixpoint contains (s sub : str) : bool :=
   is_prefix sub s || match s with [] => false | _ :: s' => contains s' sub end.
 
+(* the string literals of getStrategy (topology.go:95-119) *)
+Definition k_class : str := str_of "class".
+Definition k_replication_factor : str := str_of "replication_factor".
+Definition k_simple : str := str_of "SimpleStrategy".
+Definition k_nts : str := str_of "NetworkTopologyStrategy".
+Definition k_local : str := str_of "LocalStrategy".
+
 (* the range over ks.StrategyOptions: "class" skipped, unparsable factors skipped; opts has unique keys
    (it is a Go map), so dcs[dc] = rf is an append *)
 Fixpoint nts_dcs (opts : amap optval) : amap Z :=
   match opts with
   | [] => []
   | (dc, v) :: rest =>
-      if zlist_eqb dc (str_of "class") then nts_dcs rest
+      if zlist_eqb dc k_class then nts_dcs rest
       else match get_rf (Some v) with
            | None => nts_dcs rest
            | Some rf => (dc, rf) :: nts_dcs rest
@@ -163,13 +170,13 @@ Fixpoint nts_dcs (opts : amap optval) : amap Z :=
 
 (* None = nil strategy *)
 Definition get_strategy (class : str) (opts : amap optval) : option strategy :=
-  if contains class (str_of "SimpleStrategy") then
-    match get_rf (aget opts (str_of "replication_factor")) with
+  if contains class k_simple then
+    match get_rf (aget opts k_replication_factor) with
     | None => None
     | Some rf => Some (SSimple rf)
     end
-  else if contains class (str_of "NetworkTopologyStrategy") then Some (SNts (nts_dcs opts))
-  else if contains class (str_of "LocalStrategy") then None
+  else if contains class k_nts then Some (SNts (nts_dcs opts))
+  else if contains class k_local then None
   else None.
 
 (* ---- sort.Search --------------------------------------------------------------------------- *)
